@@ -125,6 +125,7 @@ def loop_block_e6(ctx):
         rng = e6.range_of(IT[2])
         note("iterations", rng is not None and rng[0] == ("lit", "0") and LIN(rng[1]) == LIN(iters), "the range is re-run over %s" % e6.show(IT[2], 3)[:80])
         fposts_n = fpres_n = fmaxs_n = None
+        formB = set()
         for x in paths_of(IT):
             if x.exit is not None and x.exit[0] == "panic":
                 continue
@@ -151,6 +152,20 @@ def loop_block_e6(ctx):
             CUR = FW[2][1]
             C0 = ("call", "std::option::Option::<T>::unwrap", (("call", "core::slice::<impl [T]>::last", (("call", "std::option::Option::<T>::unwrap",
                   (("call", "core::slice::<impl [T]>::last", (("loopin", fposts_n, IT[1]),)),)),)),))
+            # placeholder-free form: the post record starts empty and a pass asks `fposts.last()`: None -> the layer's own output
+            LASTP = ("call", "core::slice::<impl [T]>::last", (("loopin", fposts_n, IT[1]),))
+            for (t, pol) in x.pc:
+                if isinstance(t, tuple) and t[0] == "is" and t[1] == LASTP and t[2] in ("Option::Some", "Option::None"):
+                    some = pol if t[2] == "Option::Some" else (not pol)
+                    formB.add(some)
+                    if some:
+                        C0 = ("call", "std::option::Option::<T>::unwrap", (("call", "core::slice::<impl [T]>::last", (("payload", LASTP, "Option::Some", 0),)),))
+                    else:
+                        own_out = e6.find_terms(CUR, lambda u_: (e6.is_call(u_, "unwrap", 1) or e6.is_call(u_, "expect")) is not None
+                                                and e6.is_call((e6.is_call(u_, "unwrap", 1) or e6.is_call(u_, "expect"))[0], "last", 1) is not None
+                                                and rooted(e6.is_call((e6.is_call(u_, "unwrap", 1) or e6.is_call(u_, "expect"))[0], "last", 1)[0], act_n)
+                                                and e6.is_call((e6.is_call(u_, "unwrap", 1) or e6.is_call(u_, "expect"))[0], "last", 1)[0] != ("loopin", act_n, lid))
+                        C0 = own_out[0] if len(set(own_out)) == 1 else ("?",)
             INS = ("call", "network::Layer::inputs", (("idx", LAYERS, into),))
             OUTS = ("call", "network::Layer::outputs", (("idx", LAYERS, I),))
             same = None
@@ -183,6 +198,9 @@ def loop_block_e6(ctx):
             u = e6.is_call(seed[1][0][1][0], "unwrap", 1) or e6.is_call(seed[1][0][1][0], "expect")
             l_ = e6.is_call(u[0], "last", 1) if u else None
             oks = bool(l_) and rooted(l_[0], act_n) and l_[0] != ("loopin", act_n, lid)
+        if formB:
+            empty = e6.is_call(seed, "new", 0) is not None or seed == ("vec", ()) or e6.is_call(seed, "with_capacity", 1) is not None
+            oks = empty and formB == {True, False}
         note("seed", oks, "the post record starts as %s" % e6.show(seed, 3)[:100])
         rest = effs[ki + 1:]
         accl = [k for k, e in enumerate(rest) if e[0] == "loop"]
@@ -190,7 +208,11 @@ def loop_block_e6(ctx):
         if len(accl) != 1:
             note("range", False, "%d loops follow the passes" % len(accl))
             continue
-        note("placeholder", len(rm) == 1 and rm[0] < accl[0], "fposts.remove(0) between the passes and the accumulation: %d" % len(rm))
+        anyrm = [k for k, e in enumerate(rest) if e[0] == "mut" and e[2] == ("local", fposts_n) and e[1].rsplit("::", 1)[-1] not in ("shrink_to_fit", "reserve", "shrink_to", "reserve_exact")]
+        if formB:
+            note("placeholder", not anyrm, "the post record has no placeholder entry but is modified after the passes")
+        else:
+            note("placeholder", len(rm) == 1 and rm[0] < accl[0] and len(anyrm) == 1, "fposts.remove(0) between the passes and the accumulation: %d" % len(rm))
         ACC = rest[accl[0]]
         a_it = ACC[2]
         a_el = ("elem", a_it, ACC[1])
@@ -215,7 +237,7 @@ def loop_block_e6(ctx):
                 return False
             if pass_el is not None and e6.strip_upd(t0[1][2]) != pass_el:
                 return False
-            if need_removed and not e6.find_terms(t0[1][1], lambda u_: u_[0] == "upd" and "::remove@" in u_[2]):
+            if need_removed and not formB and not e6.find_terms(t0[1][1], lambda u_: u_[0] == "upd" and "::remove@" in u_[2]):
                 return False
             return True
         seen_v = set()
@@ -243,7 +265,7 @@ def loop_block_e6(ctx):
                         mp = e6.is_call(cm[0], "map", 2) if cm else None
                         okm = False
                         if mp and rooted(mp[0], rec_n) and isinstance(mp[1], tuple) and mp[1][0] == "closure":
-                            if rmv and not e6.find_terms(mp[0], lambda u_: u_[0] == "upd" and "::remove@" in u_[2]):
+                            if rmv and not formB and not e6.find_terms(mp[0], lambda u_: u_[0] == "upd" and "::remove@" in u_[2]):
                                 okm = False
                             else:
                                 cl_eff = [z for z in y.eff if z[0] == "loop" and z[1] == "cl%s" % mp[1][1]]
